@@ -217,6 +217,8 @@ def main(run: Run):
                         "tree shapes are enumerated/seeded (bounded)"]
     run.functions["composition: csr.Decoder / csr.Bridge / csr.Multiplexer / csr.EventMonitor / gpio.Peripheral / wishbone.Decoder / WishboneSRAM / WishboneCSRBridge (flattened)"] = "per generated hierarchy (bounded in shapes), all root addresses and all inputs"
     run_configs(run, __name__, cfgs, cosim_cycles=8)
+    from . import patterns_l1
+    patterns_l1.add_to(run)
     return run.finish(
         explanation="End-to-end composition on generated hierarchies: the flattened real design is checked at the root bus against the "
                     "addresses root.memory_map.all_resources() reports (CSR-rooted: generic CSR-target contract with a symbolic root "
